@@ -46,14 +46,15 @@ CLAUSE = {
 }
 
 
-def cfg(foreign, maxcalls, maxts, nclear, variant="faithful", atomic=False, check=True):
+def cfg(foreign, maxcalls, maxts, nclear, variant="faithful", atomic=False, check=True, refine=True):
     s = "SPECIFICATION Spec\nCONSTANTS Foreign = {%s}\n  MaxCalls = %d\n  MaxTs = %d\n  NClear = %d\n" \
         "  Variant = \"%s\"\n  Atomic = %s\n" % (",".join(map(str, foreign)), maxcalls, maxts, nclear, variant,
                                                 "TRUE" if atomic else "FALSE")
     if check:
         for i in INVS:
             s += "INVARIANT %s\n" % i
-        s += "PROPERTY RefinesIdeal\n"
+        if refine:
+            s += "PROPERTY RefinesIdeal\n"
     return s + "CHECK_DEADLOCK FALSE\n"
 
 
@@ -314,7 +315,9 @@ def execute(ctx, libdir, behs, per_child, pool, tag, leave_running):
 # ------------------------------------------------------------------------------ the check
 
 def design_jobs(ctx):
-    jobs = [("MC_ThreadState(3thr,1call,0clear)", cfg([1, 2, 3], 1, 1, 0), "good"),
+    # quick: the refinement is checked on the 2-thread instance, the invariants of the mechanism on 3 threads
+    jobs = [("MC_ThreadState(3thr,1call,0clear%s)" % (",invariants only" if ctx.quick else ""),
+             cfg([1, 2, 3], 1, 1, 0, refine=not ctx.quick), "good"),
             ("MC_ThreadState(2thr,2calls,1clear)", cfg([1, 2], 2, 1, 1), "cov")]
     if not ctx.quick:
         jobs += [("MC_ThreadState(3thr,2calls,1clear)", cfg([1, 2, 3], 2, 1, 1), "good"),
